@@ -66,32 +66,38 @@ def flush (held : Nat → Nat → Bool) (r : Nat) : Nat → Nat → Bool :=
 def addPartial (held : Nat → Nat → Bool) (r src : Nat) : Nat → Nat → Bool :=
   fun r' k => (decide (r' = r) && decide (k = src)) || held r' k
 
+def Node.setHead (d : Node) (r : Nat) : Node := { d with head := r }
+def Node.setTick (d : Node) (c : Nat) : Node := { d with lastTick := c }
+def Node.setHeld (d : Node) (h : Nat → Nat → Bool) : Node := { d with held := h }
+def Node.setPending (d : Node) (p : List Nat) : Node := { d with pending := p }
+def Node.setSync (d : Node) (v : Nat) : Node := { d with syncTo := v }
+
 /-- `appendStore.Put` seen from the protocol: only `head + 1` is ever accepted (C02) -/
 def Node.put (d : Node) (r : Nat) : Node :=
-  if r = d.head + 1 then { d with head := r } else d
+  if r = d.head + 1 then d.setHead r else d
 
 /-- a sync stream stores the peer's beacons one by one up to `target`; the aggregator is told
 (`beaconStoredAgg`) and flushes its cache -/
 def Node.appendTo (d : Node) (target : Nat) : Node :=
   let d' := (List.range' (d.head + 1) (target - d.head)).foldl Node.put d
-  { d' with held := flush d'.held d'.head }
+  d'.setHeld (flush d'.held d'.head)
 
 /-- `runAggregator` on one valid partial (own or received) -/
 def Node.aggregate (n thr : Nat) (d : Node) (src r : Nat) : Node :=
   if !Gen.aggInWindow r d.head then d                                   -- ignoring_partial
   else
     let held := addPartial d.held r src                                 -- cache.Append
-    if Gen.aggNotEnough (count n held r) thr then { d with held := held }
+    if Gen.aggNotEnough (count n held r) thr then d.setHeld held
     else
       -- Recover + VerifyRecovered succeed (RecoverSpec); cache.FlushRounds(r) comes before tryAppend
-      let d1 : Node := { d with held := flush held r }
+      let d1 := d.setHeld (flush held r)
       if Gen.tryAppendRefuse d.head r then
         -- aggregated but not appendable
-        if Gen.shouldSync d.head r then { d1 with syncTo := max d1.syncTo r } else d1
+        if Gen.shouldSync d.head r then d1.setSync (max d.syncTo r) else d1
       else
         -- Put succeeds (C02), the beacon is offered to catchupBeacons; Handler.run launches the catch-up goroutine
         let d2 := d1.put r
-        if Gen.catchupLaunch r d.lastTick then { d2 with pending := d2.pending ++ [r] } else d2
+        if Gen.catchupLaunch r d.lastTick then d2.setPending (d.pending ++ [r]) else d2
 
 def State.setNode (s : State) (i : Nat) (d : Node) : State :=
   { s with node := fun k => if k = i then d else s.node k }
@@ -106,32 +112,27 @@ def State.broadcast (s : State) (i r : Nat) : State :=
 
 /-- `Handler.run`, case tick -/
 def State.tick (s : State) (i : Nat) : State :=
-  let d := s.node i
-  if !d.up then s else
-  let r := Gen.bnpRound d.clock d.head
-  let s1 := (s.setNode i { d with lastTick := d.clock }).broadcast i r
-  if Gen.gapSync d.head d.clock then
-    let d1 := s1.node i
-    s1.setNode i { d1 with syncTo := max d1.syncTo d.clock }              -- RunSync(current.round)
+  if !(s.node i).up then s else
+  let s1 := (s.setNode i ((s.node i).setTick (s.node i).clock)).broadcast i (Gen.bnpRound (s.node i).clock (s.node i).head)
+  if Gen.gapSync (s.node i).head (s.node i).clock then
+    s1.setNode i ((s1.node i).setSync (max (s1.node i).syncTo (s.node i).clock))     -- RunSync(current.round)
   else s1
 
 /-- the oldest sleeping catch-up goroutine of node i wakes: `broadcastNextPartial(c, &latest)`, `latest.Round < c.round` -/
 def State.fire (s : State) (i : Nat) : State :=
-  let d := s.node i
-  if !d.up then s else
-  match d.pending with
+  if !(s.node i).up then s else
+  match (s.node i).pending with
   | [] => s
-  | r :: rest => (s.setNode i { d with pending := rest }).broadcast i (r + 1)
+  | r :: rest => (s.setNode i ((s.node i).setPending rest)).broadcast i (r + 1)
 
 /-- `ProcessPartialBeacon` at the destination (honest sender: index, group membership and signature checks pass) -/
 def State.recv (s : State) (m : Msg) : State :=
-  let d := s.node m.dst
-  if !d.up then s
+  if !(s.node m.dst).up then s
   else if !s.conn m.src m.dst then s                                     -- the call fails
-  else if Gen.ppbFuture m.round (d.clock + 1) then s                     -- ignoring future partial
-  else if Gen.ppbPast m.round d.head then s                              -- ignoring past partial
+  else if Gen.ppbFuture m.round ((s.node m.dst).clock + 1) then s        -- ignoring future partial
+  else if Gen.ppbPast m.round (s.node m.dst).head then s                 -- ignoring past partial
   else if m.src = m.dst then s                                           -- own address
-  else s.setNode m.dst (d.aggregate s.n s.thr m.src m.round)
+  else s.setNode m.dst ((s.node m.dst).aggregate s.n s.thr m.src m.round)
 
 /-- fair delivery: every message in flight is handed to its destination (undeliverable ones are lost) -/
 def State.deliverAll (s : State) : State :=
@@ -146,26 +147,22 @@ def State.maxPeerHead (s : State) (i : Nat) : Nat :=
 
 /-- `SyncManager`: the running request of node i pulls from a connected peer that has more -/
 def State.pull (s : State) (i : Nat) : State :=
-  let d := s.node i
-  if !d.up then s
-  else if d.syncTo = 0 then s
-  else if Gen.syncFilled d.syncTo d.head then s.setNode i { d with syncTo := 0 }   -- request already filled
+  if !(s.node i).up then s
+  else if (s.node i).syncTo = 0 then s
+  else if Gen.syncFilled (s.node i).syncTo (s.node i).head then s.setNode i ((s.node i).setSync 0)    -- request already filled
+  else if s.maxPeerHead i ≤ (s.node i).head then s.setNode i ((s.node i).setSync 0)                  -- tried all nodes
   else
-    let m := s.maxPeerHead i
-    if m ≤ d.head then s.setNode i { d with syncTo := 0 }                          -- tried all nodes
-    else
-      let d' := d.appendTo (min d.syncTo m)
-      s.setNode i { d' with syncTo := if d'.head < d.syncTo then d.syncTo else 0 }
+    s.setNode i (((s.node i).appendTo (min (s.node i).syncTo (s.maxPeerHead i))).setSync
+      (if ((s.node i).appendTo (min (s.node i).syncTo (s.maxPeerHead i))).head < (s.node i).syncTo then (s.node i).syncTo else 0))
 
 def State.stop (s : State) (i : Nat) : State :=
   s.setNode i { (s.node i) with up := false, held := fun _ _ => false, pending := [], syncTo := 0 }
 
 /-- a new Handler on the same store, then `Catchup`: run from the next round, sync up to it -/
 def State.restart (s : State) (i : Nat) : State :=
-  let d := s.node i
-  if d.up then s
-  else s.setNode i { d with up := true, held := fun _ _ => false, pending := [], lastTick := 0,
-                            syncTo := d.clock + Gen.catchupSyncAhead }
+  if (s.node i).up then s
+  else s.setNode i { (s.node i) with up := true, held := fun _ _ => false, pending := [], lastTick := 0,
+                                     syncTo := (s.node i).clock + Gen.catchupSyncAhead }
 
 /-- one period passes on every clock (lock-step) -/
 def State.advance (s : State) : State :=
